@@ -1,6 +1,7 @@
 package main
 
 import (
+	"bytes"
 	"context"
 	"crypto/sha256"
 	"encoding/hex"
@@ -130,7 +131,9 @@ type bCase struct {
 type bObs struct {
 	Adds         json.RawMessage `json:"adds"`
 	World        json.RawMessage `json:"world"`
-	DiagsOK      bool            `json:"diags_ok"` // finder diagnostics reach the caller intact and rewritten
+	DiagsOK      bool            `json:"diags_ok"`     // finder diagnostics reach the caller intact and rewritten
+	ReopenDiff   []string        `json:"reopen_diff"`  // differences between the closed bundle and OpenDir of its directory
+	ArchiveDiff  []string        `json:"archive_diff"` // differences after WriteArchive / ExtractArchive
 	diagRet      int
 	Events       [][]interface{} `json:"events"`
 	Calls        [][]interface{} `json:"calls"`
@@ -348,6 +351,14 @@ func (e *bEnv) FetchSourcePackage(ctx context.Context, sourceType string, u *url
 			for file := range templateFiles {
 				os.WriteFile(filepath.Join(targetDir, file), []byte(fmt.Sprintf("content-%d of %s", f.Content, file)), 0644)
 			}
+			if f.Content%2 == 0 {
+				// links, an empty directory and odd modes travel with this content id
+				os.Symlink("main", filepath.Join(targetDir, "lnk"))
+				os.Symlink("../main", filepath.Join(targetDir, "m", "up"))
+				os.Mkdir(filepath.Join(targetDir, "empty"), 0750)
+				os.WriteFile(filepath.Join(targetDir, "exe"), []byte(fmt.Sprintf("content-%d exe", f.Content)), 0755)
+				os.Chmod(filepath.Join(targetDir, "m", "f"), 0600)
+			}
 			var resp sourcebundle.FetchSourcePackageResponse
 			if f.Meta {
 				resp.PackageMeta = sourcebundle.PackageMetaWithGitMetadata("commit-of-"+name, "message of "+name)
@@ -460,7 +471,7 @@ func (e *bEnv) tracer() *sourcebundle.BuildTracer {
 
 func newEnv(c *bCase, g bGamma, dir string) *bEnv {
 	e := &bEnv{c: c, g: g, dir: dir, obs: &bObs{Adds: c.rawAdds, World: c.rawWorld, DiagsOK: true, Events: [][]interface{}{}, Calls: [][]interface{}{},
-		Results: []bResult{}, Pkgs: []bPkg{}, Resolved: []bRes{}, LookupBad: []string{}, Unscripted: []string{}, Gamma: g.seed},
+		Results: []bResult{}, Pkgs: []bPkg{}, Resolved: []bRes{}, LookupBad: []string{}, Unscripted: []string{}, ReopenDiff: []string{}, ArchiveDiff: []string{}, Gamma: g.seed},
 		fetchQ: map[string][]string{}, versQ: map[string][]string{}, srcQ: map[string][]string{}}
 	for _, cl := range c.Calls {
 		if len(cl) < 3 {
@@ -699,6 +710,90 @@ func (e *bEnv) inspect(bundle *sourcebundle.Bundle) {
 	}
 }
 
+// bundleDiff compares two bundles through their accessors, relative to their roots,
+// and (files = true) the two directory trees.
+func bundleDiff(e *bEnv, a, b *sourcebundle.Bundle, rootA, rootB string, files bool) []string {
+	var out []string
+	rootA, _ = filepath.Abs(rootA)
+	rootB, _ = filepath.Abs(rootB)
+	pa, pb := a.RemotePackages(), b.RemotePackages()
+	if fmt.Sprint(pa) != fmt.Sprint(pb) {
+		out = append(out, "remote packages differ")
+	}
+	for _, p := range pa {
+		ma, mb := a.RemotePackageMeta(p), b.RemotePackageMeta(p)
+		if (ma == nil) != (mb == nil) || (ma != nil && (ma.GitCommitID() != mb.GitCommitID() || ma.GitCommitMessage() != mb.GitCommitMessage())) {
+			out = append(out, "metadata of "+p.String()+" differs")
+		}
+		for _, sub := range []string{"", "m", "m/f", "nosuch"} {
+			la, ea := a.LocalPathForRemoteSource(p.SourceAddr(sub))
+			lb, eb := b.LocalPathForRemoteSource(p.SourceAddr(sub))
+			ra, _ := filepath.Rel(rootA, la)
+			rb, _ := filepath.Rel(rootB, lb)
+			if (ea == nil) != (eb == nil) || ra != rb {
+				out = append(out, "lookup of "+p.String()+"//"+sub+" differs")
+			}
+		}
+	}
+	ra, rb := a.RegistryPackages(), b.RegistryPackages()
+	if fmt.Sprint(ra) != fmt.Sprint(rb) {
+		out = append(out, "registry packages differ")
+	}
+	for _, rp := range ra {
+		va, vb := a.RegistryPackageVersions(rp), b.RegistryPackageVersions(rp)
+		if fmt.Sprint(va) != fmt.Sprint(vb) {
+			out = append(out, "versions of "+rp.String()+" differ")
+		}
+		for _, v := range va {
+			sa, oka := a.RegistryPackageSourceAddr(rp, v)
+			sb, okb := b.RegistryPackageSourceAddr(rp, v)
+			if oka != okb || sa != sb {
+				out = append(out, "source address of "+rp.String()+" differs")
+			}
+			da, db := a.RegistryPackageVersionDeprecation(rp, v), b.RegistryPackageVersionDeprecation(rp, v)
+			if (da == nil) != (db == nil) || (da != nil && *da != *db) {
+				out = append(out, "deprecation of "+rp.String()+" differs")
+			}
+		}
+	}
+	ca, _ := a.ChecksumV1()
+	cb, _ := b.ChecksumV1()
+	if ca != cb {
+		out = append(out, "checksum differs")
+	}
+	if files {
+		g := arena.NewGamma(0, nil, nil, true)
+		ta, tb := g.Snapshot(rootA), g.Snapshot(rootB)
+		for k, n := range ta {
+			m, ok := tb[k]
+			if !ok {
+				out = append(out, "missing after extraction: "+k)
+				continue
+			}
+			// contents are not in the arena table: compare bytes directly; mtimes are not compared
+			if n.K != m.K || n.M != m.M || strings.Join(n.Tgt, "/") != strings.Join(m.Tgt, "/") {
+				out = append(out, fmt.Sprintf("%s: %v vs %v", k, n, m))
+			}
+			if n.K == "f" {
+				x, _ := os.ReadFile(filepath.Join(rootA, strings.TrimPrefix(k, "?")))
+				y, _ := os.ReadFile(filepath.Join(rootB, strings.TrimPrefix(k, "?")))
+				if !bytes.Equal(x, y) {
+					out = append(out, "content of "+k+" differs")
+				}
+			}
+		}
+		for k := range tb {
+			if _, ok := ta[k]; !ok {
+				out = append(out, "extra after extraction: "+k)
+			}
+		}
+	}
+	if out == nil {
+		out = []string{}
+	}
+	return out
+}
+
 func evEq(a, b [][]interface{}) bool {
 	x, _ := json.Marshal(a)
 	y, _ := json.Marshal(b)
@@ -764,6 +859,23 @@ func builderMain() int {
 				e.inspect(bundle)
 				sha, _ := manifestOf(e.dir)
 				obs.Manifest = sha
+				if re, rerr := sourcebundle.OpenDir(e.dir); rerr != nil {
+					obs.ReopenDiff = append(obs.ReopenDiff, "re-open fails: "+rerr.Error())
+				} else {
+					obs.ReopenDiff = bundleDiff(e, bundle, re, e.dir, e.dir, false)
+				}
+				var buf bytes.Buffer
+				if werr := bundle.WriteArchive(&buf); werr != nil {
+					obs.ArchiveDiff = append(obs.ArchiveDiff, "WriteArchive fails: "+werr.Error())
+				} else {
+					xdir := filepath.Join(dir, "extracted")
+					os.Mkdir(xdir, 0755)
+					if ex, xerr := sourcebundle.ExtractArchive(bytes.NewReader(buf.Bytes()), xdir); xerr != nil {
+						obs.ArchiveDiff = append(obs.ArchiveDiff, "ExtractArchive fails: "+xerr.Error())
+					} else {
+						obs.ArchiveDiff = bundleDiff(e, bundle, ex, e.dir, xdir, true)
+					}
+				}
 				cs, _ := bundle.ChecksumV1()
 				// identical builds, and the canonical order of the same adds, must give the same bundle
 				for r := 1; r <= repeats; r++ {
@@ -796,7 +908,8 @@ func builderMain() int {
 		agree := obs.Panic == "" && evEq(c.Events, obs.Events) && evEq(c.Calls, obs.Calls) &&
 			normResults(c.Results) == normResultsObs(c.Adds, obs.Results) &&
 			obs.BundleOK == (c.Closed && !c.Poisoned) && len(obs.LookupBad) == 0 && len(obs.Unscripted) == 0 &&
-			obs.EarlyOpen == 0 && obs.TmpLeft == 0 && obs.RefusedAfter && obs.ManifestSame && obs.CanonSame && obs.DiagsOK
+			obs.EarlyOpen == 0 && obs.TmpLeft == 0 && obs.RefusedAfter && obs.ManifestSame && obs.CanonSame && obs.DiagsOK &&
+			len(obs.ReopenDiff) == 0 && len(obs.ArchiveDiff) == 0
 		if agree && obs.BundleOK {
 			pp, _ := json.Marshal(c.Pkgs)
 			op, _ := json.Marshal(obs.Pkgs)
